@@ -29,5 +29,8 @@ s = re.sub(r"(<!-- BEGIN GENERATED SECTION 6 -->\n).*?(<!-- END GENERATED SECTIO
 if "<!-- BEGIN GENERATED SEED TABLE -->" in s:
     tab = subprocess.check_output([sys.executable, os.path.join(VERIF, "tools", "mkseedtable.py")], text=True)
     s = re.sub(r"(<!-- BEGIN GENERATED SEED TABLE -->\n).*?(<!-- END GENERATED SEED TABLE -->)", lambda m: m.group(1) + tab + m.group(2), s, flags=re.S)
+if "<!-- BEGIN GENERATED FINDINGS -->" in s:
+    tab = subprocess.check_output([sys.executable, os.path.join(VERIF, "tools", "mkfindings.py")], text=True)
+    s = re.sub(r"(<!-- BEGIN GENERATED FINDINGS -->\n).*?(<!-- END GENERATED FINDINGS -->)", lambda m: m.group(1) + tab + m.group(2), s, flags=re.S)
 open(p, "w").write(s)
 print("DESIGN.md regenerated (%d bytes)" % len(s))
